@@ -35,6 +35,9 @@ func (s leakScript) String() string {
 
 var finalized sync.Map // id -> *atomic.Bool is overkill; use a counter per probe
 
+// leakStop: a violation was found, the remaining scripts need not wait for their finalizers.
+var leakStop atomic.Bool
+
 type probe struct {
 	done atomic.Int64
 }
@@ -88,8 +91,11 @@ func runLeakScript(s leakScript) string {
 				want++
 			}
 		}
-		deadline := time.Now().Add(20 * time.Second)
+		deadline := time.Now().Add(10 * time.Second)
 		for {
+			if leakStop.Load() {
+				return ""
+			}
 			runtime.GC()
 			runtime.Gosched()
 			got := 0
@@ -171,7 +177,11 @@ func runLeakProbes(thorough bool) (n int, firstViolation string) {
 		go func() {
 			defer wg.Done()
 			for s := range ch {
+				if leakStop.Load() {
+					continue
+				}
 				if v := runLeakScript(s); v != "" {
+					leakStop.Store(true)
 					mu.Lock()
 					if firstViolation == "" {
 						firstViolation = v
